@@ -177,7 +177,9 @@ fn run_case<F: MathFunction + Function<Trace = VmTrace> + Clone>(
         };
         if let Some(ix) = var.index() {
             sv.insert(ix, val);
-            sva.insert(ix, vec![val; nsamp]);
+            // a supplied variable that the shape does not use is ignored, whatever the length of its array
+            let unused = s == "extra" || !b.vars.contains_key(s);
+            sva.insert(ix, vec![val; if unused { nsamp + 2 } else { nsamp }]);
         }
     }
     let base = json!({"backend": backend, "terms": b.terms.iter().map(|(n, w)| json!([n, w])).collect::<Vec<_>>(),
@@ -185,6 +187,7 @@ fn run_case<F: MathFunction + Function<Trace = VmTrace> + Clone>(
         "point": p, "mat": mat.map(|m| m.to_vec()).unwrap_or_default(), "mname": mname,
         "vars": varmap.iter().map(|(n, i)| json!([n, i])).collect::<Vec<_>>(), "nvars": nvars_total,
         "allvars": b.vars.keys().collect::<Vec<_>>()});
+    let wrappers = *id % 2 == 0;
     let mut emit = |kind: &str, simplified: bool, ok: bool, err: String, got: Value| {
         let mut j = base.clone();
         j["ev"] = json!("bind");
@@ -198,6 +201,8 @@ fn run_case<F: MathFunction + Function<Trace = VmTrace> + Clone>(
         *id += 1;
     };
     let (x, y, z) = (p[0] as f32, p[1] as f32, p[2] as f32);
+    // every other case goes through the public entry points (eval_with_vars, eval_with_transform_and_vars,
+    // eval_with_var_arrays, ...) instead of eval_raw
     let mut shapes: Vec<(Shape<F>, bool)> = vec![(b.shape.clone(), false)];
     // simplified child (only when there is a choice and the interval evaluation gives a trace)
     if b.has_choice {
@@ -215,7 +220,12 @@ fn run_case<F: MathFunction + Function<Trace = VmTrace> + Clone>(
         {
             let tape = shape.ez_point_tape();
             let mut e = Shape::<F>::new_point_eval();
-            match e.eval_raw(&tape, x, y, z, m4.as_ref(), &sv) {
+            let r = match (wrappers, m4.as_ref()) {
+                (true, Some(m)) => e.eval_with_transform_and_vars(&tape, x, y, z, m, &sv),
+                (true, None) => e.eval_with_vars(&tape, x, y, z, &sv),
+                (false, m) => e.eval_raw(&tape, x, y, z, m, &sv),
+            };
+            match r {
                 Ok((v, _)) => emit("point", *simplified, true, String::new(), json!([bits(v)])),
                 Err(er) => emit("point", *simplified, false, format!("{er}"), json!([])),
             }
@@ -224,7 +234,13 @@ fn run_case<F: MathFunction + Function<Trace = VmTrace> + Clone>(
         {
             let tape = shape.ez_interval_tape();
             let mut e = Shape::<F>::new_interval_eval();
-            match e.eval_raw(&tape, Interval::from(x), Interval::from(y), Interval::from(z), m4.as_ref(), &sv) {
+            let (ix, iy, iz) = (Interval::from(x), Interval::from(y), Interval::from(z));
+            let r = match (wrappers, m4.as_ref()) {
+                (true, Some(m)) => e.eval_with_transform_and_vars(&tape, ix, iy, iz, m, &sv),
+                (true, None) => e.eval_with_vars(&tape, ix, iy, iz, &sv),
+                (false, m) => e.eval_raw(&tape, ix, iy, iz, m, &sv),
+            };
+            match r {
                 Ok((v, _)) => emit("interval", *simplified, true, String::new(), json!(ibits(&v))),
                 Err(er) => emit("interval", *simplified, false, format!("{er}"), json!([])),
             }
@@ -234,12 +250,20 @@ fn run_case<F: MathFunction + Function<Trace = VmTrace> + Clone>(
             let tape = shape.ez_float_slice_tape();
             let mut e = Shape::<F>::new_float_slice_eval();
             let (xs, ys, zs) = (vec![x; nsamp], vec![y; nsamp], vec![z; nsamp]);
-            let r = e.eval_raw(&tape, &xs, &ys, &zs, m4.as_ref(), fidget_core::shape::ShapeBulkEval::<F::FloatSliceEval>::var_value(&sv)).map(|o| o.to_vec());
+            let r = match (wrappers, m4.as_ref()) {
+                (true, Some(m)) => e.eval_with_transform_and_vars(&tape, &xs, &ys, &zs, m, &sv).map(|o| o.to_vec()),
+                (true, None) => e.eval_with_vars(&tape, &xs, &ys, &zs, &sv).map(|o| o.to_vec()),
+                (false, m) => e.eval_raw(&tape, &xs, &ys, &zs, m, fidget_core::shape::ShapeBulkEval::<F::FloatSliceEval>::var_value(&sv)).map(|o| o.to_vec()),
+            };
             match r {
                 Ok(o) => emit("float-values", *simplified, true, String::new(), json!(o.iter().map(|v| bits(*v)).collect::<Vec<_>>())),
                 Err(er) => emit("float-values", *simplified, false, format!("{er}"), json!([])),
             }
-            let r = e.eval_raw(&tape, &xs, &ys, &zs, m4.as_ref(), fidget_core::shape::ShapeBulkEval::<F::FloatSliceEval>::var_array(&sva)).map(|o| o.to_vec());
+            let r = match (wrappers, m4.as_ref()) {
+                (true, Some(m)) => e.eval_with_transform_and_var_arrays(&tape, &xs, &ys, &zs, m, &sva).map(|o| o.to_vec()),
+                (true, None) => e.eval_with_var_arrays(&tape, &xs, &ys, &zs, &sva).map(|o| o.to_vec()),
+                (false, m) => e.eval_raw(&tape, &xs, &ys, &zs, m, fidget_core::shape::ShapeBulkEval::<F::FloatSliceEval>::var_array(&sva)).map(|o| o.to_vec()),
+            };
             match r {
                 Ok(o) => emit("float-arrays", *simplified, true, String::new(), json!(o.iter().map(|v| bits(*v)).collect::<Vec<_>>())),
                 Err(er) => emit("float-arrays", *simplified, false, format!("{er}"), json!([])),
@@ -252,7 +276,11 @@ fn run_case<F: MathFunction + Function<Trace = VmTrace> + Clone>(
             let xs = vec![Grad::new(x, 1.0, 0.0, 0.0); 2];
             let ys = vec![Grad::new(y, 0.0, 1.0, 0.0); 2];
             let zs = vec![Grad::new(z, 0.0, 0.0, 1.0); 2];
-            let r = e.eval_raw(&tape, &xs, &ys, &zs, m4.as_ref(), fidget_core::shape::ShapeBulkEval::<F::GradSliceEval>::var_value(&sv)).map(|o| o.to_vec());
+            let r = match (wrappers, m4.as_ref()) {
+                (true, Some(m)) => e.eval_with_transform_and_vars(&tape, &xs, &ys, &zs, m, &sv).map(|o| o.to_vec()),
+                (true, None) => e.eval_with_vars(&tape, &xs, &ys, &zs, &sv).map(|o| o.to_vec()),
+                (false, m) => e.eval_raw(&tape, &xs, &ys, &zs, m, fidget_core::shape::ShapeBulkEval::<F::GradSliceEval>::var_value(&sv)).map(|o| o.to_vec()),
+            };
             match r {
                 Ok(o) => emit("grad", *simplified, true, String::new(), json!(o.iter().map(gbits).collect::<Vec<_>>())),
                 Err(er) => emit("grad", *simplified, false, format!("{er}"), json!([])),
@@ -379,6 +407,34 @@ fn run_histories<F: MathFunction + Function<Trace = VmTrace> + Clone>(w: &mut dy
                 emit_rec(w, id, &base, "interval", false, r.unwrap_or_else(|m| Err(format!("panic: {m}"))));
                 // bb (shape, tapes, variable map) is dropped here
             }
+        }
+        // (4) one bulk evaluator: a call with per-sample arrays for the variables, then a call with one value per variable
+        //     that equals the first and the last element of the array used before
+        {
+            let c = Case { order: vec!["w0".into(), "X".into(), "w1".into()], supplied: vec![] };
+            let bb = build_with::<F>(&c, 0, HashMap::new());
+            let mut fe = Shape::<F>::new_float_slice_eval();
+            let tape = bb.shape.ez_float_slice_tape();
+            let n = 4usize;
+            let a0 = 1 + rng.below(4) as i64;
+            let mut sva = ShapeVars::<Vec<f32>>::new();
+            let mut sv1 = ShapeVars::<f32>::new();
+            let mut values: HashMap<String, i64> = HashMap::new();
+            for (k, (name, var)) in bb.vars.iter().enumerate() {
+                if let Some(ix) = var.index() {
+                    let v = a0 + k as i64;
+                    values.insert(name.clone(), v);
+                    sva.insert(ix, vec![v as f32, (v + 3) as f32, (v - 2) as f32, v as f32]);
+                    sv1.insert(ix, v as f32);
+                }
+            }
+            let (x, y, z) = (p[0] as f32, p[1] as f32, p[2] as f32);
+            let (xs, ys, zs) = (vec![x; n], vec![y; n], vec![z; n]);
+            let _ = vharness::catch(std::panic::AssertUnwindSafe(|| fe.eval_with_var_arrays(&tape, &xs, &ys, &zs, &sva).map(|o| o.to_vec())));
+            let supplied: Vec<String> = values.keys().cloned().collect();
+            let base = base_of(backend, &bb, &bb.shape, &values, &supplied, p, None, "arrays-then-values");
+            let r = vharness::catch(std::panic::AssertUnwindSafe(|| fe.eval_with_vars(&tape, &xs, &ys, &zs, &sv1).map(|o| o[..3].to_vec()).map_err(|er| format!("{er}"))));
+            emit_rec(w, id, &base, "float-values", false, r.unwrap_or_else(|m| Err(format!("panic: {m}"))).map(|o| json!(o.iter().map(|v| bits(*v)).collect::<Vec<_>>())));
         }
         // (2) one bulk evaluator: many variables at n samples, then fewer variables at another n (and back)
         let many: Vec<String> = ["w0", "w1", "w2", "X", "w3", "Y"].iter().take(3 + round % 4).map(|s| s.to_string()).collect();
